@@ -29,8 +29,9 @@ RULES = {
     'R12': 'every signal number qb_loop_signal_add accepts can get the library\'s handler: the installation loop covers all numbers below NSIG',
     'R13': 'a descriptor whose callback asks to be removed (negative return) leaves the polling driver as well: on that edge the driver\'s del is called (unless the callback has deleted the entry itself) before the entry is marked deleted - a descriptor that stays open would stay in the kernel\'s set, be reported in every iteration and be refused when added again',
     'R14': 'a signal callback may delete its own registration: the delivery being dispatched is noted, qb_loop_signal_del detaches it (clears its cloned_from), and after the callback the registration is dereferenced only where it is still attached',
+    'R15': 'a full table is an error, not an abort: where an add asks a helper for a free slot and the helper can hand back the (negative) result of the failed table growth, that result is tested before it is used as a slot index - in the descriptor add and in the timer add (the table holds 65536 entries; slots of deleted descriptors come back only at the next poll)',
 }
-FLOORS = {'R1': 6, 'R2': 6, 'R3': 12, 'R4': 9, 'R5': 3, 'R6': 7, 'R7': 1, 'R8': 2, 'R9': 1, 'R10': 1, 'R11': 2, 'R12': 1, 'R13': 1, 'R14': 3}
+FLOORS = {'R1': 6, 'R2': 6, 'R3': 12, 'R4': 9, 'R5': 3, 'R6': 7, 'R7': 1, 'R8': 2, 'R9': 1, 'R10': 1, 'R11': 2, 'R12': 1, 'R13': 1, 'R14': 3, 'R15': 2}
 
 
 def run(ctx):
@@ -51,6 +52,7 @@ def run(ctx):
     r13(ctx, st)
     r14(ctx)
     todo_accounting(ctx, 'R1')
+    r15(ctx)
 
 
 def r1(ctx):
@@ -549,9 +551,11 @@ def r11(ctx, st):
         raise AnalysisBroken('_poll_add_: driver add calls = %d' % len(adds))
     add = adds[0]
     rv = None
+    rv_st = None
     for s_ in f.events('STORE'):
         if s_.rhs is not None and any(n.get('id') == add.e.get('id') for n in walk(s_.rhs)):
             rv = estr(s_.lhs)
+            rv_st = s_
     if rv is None:
         raise AnalysisBroken('_poll_add_: result of the driver add is not stored')
     # failure edge: the slot is emptied (as by _poll_entry_empty_: number and check gone), not just marked EMPTY
@@ -562,7 +566,10 @@ def r11(ctx, st):
             continue
         for (t, lab) in b.succs:
             if lab in (True, False) and any(a.ls == rv and ((a.op == '!=' and a.rc == 0) or (a.op == '<' and a.rc == 0)) for a in atoms_of(b.cond, lab)):
-                failed.append((b, t))
+                # a test of the driver's answer: the variable may hold other results before (the slot search)
+                defs, _en = f.reaching_defs(rv, f.end_of(b.id))
+                if any(d_.d is rv_st.d for d_ in defs):
+                    failed.append((b, t))
     if not failed:
         raise AnalysisBroken('_poll_add_: no failure edge after the driver add')
     okf = True
@@ -723,3 +730,46 @@ def r14(ctx):
     ctx.check('R14', 'signal_del-detaches-the-running-delivery', bool(det), det[0] if det else d,
               'qb_loop_signal_del clears cloned_from of the delivery whose callback is running',
               'qb_loop_signal_del frees the registration without detaching the delivery that is being dispatched')
+
+
+def r15(ctx):
+    prog = ctx.prog
+    n = 0
+    for unit in ('lib/loop_poll.c', 'lib/loop_timerlist.c'):
+        fns = list(prog.all_fns(files={unit}))
+        # helpers that find a slot and can fail: a static function that returns, on some path, a value stored from qb_array_grow
+        finders = []
+        for g in fns:
+            if not g.static:
+                continue
+            grows = [st for st in g.events('STORE') if st.rhs is not None and callee_of(unwrap(st.rhs)) == 'qb_array_grow']
+            if grows and any(ev.e is not None and estr(ev.e) == estr(grows[0].lhs) for ev in g.returns()):
+                finders.append(g.name)
+        if not finders:
+            raise AnalysisBroken('R15: %s: no slot finder that passes on the result of qb_array_grow' % unit)
+        for f in fns:
+            for st in list(f.events('STORE')) + list(f.events('DECL')):
+                rhs = st.rhs if st.kind == 'STORE' else st.d.get('init')
+                if rhs is None or callee_of(unwrap(rhs)) not in finders:
+                    continue
+                v = estr(st.lhs) if st.kind == 'STORE' else st.d['var']
+                vs = {v}
+                for st2 in f.events('STORE'):
+                    if st2.rhs is not None and unwrap(st2.lhs).get('k') == 'var' and unwrap(st2.rhs).get('k') == 'var' and estr(st2.rhs) in vs:
+                        vs.add(estr(st2.lhs))
+                uses = [ev for ev in f.calls('qb_array_index') if any(mentions_var(ev.args[1], x) for x in vs) and f.may_follow(st, ev)]
+                if not uses:
+                    raise AnalysisBroken('R15: %s: the slot found is not used as an index' % f.name)
+
+                def tested(a, fb, vs=vs):
+                    return a.ls in vs and a.rc is not None and ((a.op == '>=' and a.rc >= 0) or (a.op == '>' and a.rc >= -1))
+                n += 1
+                path = None
+                for u in uses:
+                    path = path or f.uncut_path(u, tested, start=('after', st))
+                ctx.check('R15', '%s:slot-result-tested' % f.name, path is None, uses[0],
+                          'the result of %s is tested for an error before it is used as a slot index' % callee_of(unwrap(rhs)),
+                          'the result of %s is used as a slot index untested: when the table cannot grow (65536 entries) it is -EINVAL, the index lookup fails and the assertion around it aborts the process instead of the add returning an error'
+                          % callee_of(unwrap(rhs)), {'path': f.path_lines(path) if path else None})
+    if n < 2:
+        raise AnalysisBroken('R15: %d call sites of slot finders (descriptor add and timer add expected)' % n)
